@@ -165,6 +165,7 @@ type LScenario struct {
 	Buf     int    `json:"buf"`
 	SlowCb  bool   `json:"slowCb"`  // the application's incoming callback takes time (pipeline backs up)
 	Partial bool   `json:"partial"` // the cause hits inside an inbound message
+	BlockCb bool   `json:"blockCb"` // the application's incoming callback blocks until the handler's context ends
 	Cause2  string `json:"cause2"`  // a second cause shortly after the first ("" = none): overlapping terminations
 	GapMs   int    `json:"gapMs"`   // delay between the two causes
 	ErrDelayMs int `json:"errDelayMs"` // peer_close / peer_reset: the failing Read returns only after this delay
@@ -272,9 +273,22 @@ func RunLifecycle(t *testing.T, sc *LScenario, emit func(*LifeObs)) {
 		var ini *simplefixgo.Initiator
 		var acc *simplefixgo.Acceptor
 		var lst *ScriptListener
+		entered := make(chan struct{}, 1)
 		slow := func(b []byte) bool {
 			if sc.SlowCb {
 				time.Sleep(20 * time.Millisecond)
+			}
+			if sc.BlockCb && h != nil {
+				select {
+				case entered <- struct{}{}:
+				default:
+				}
+				// an application callback that hands the message on and waits - until the handler's own context ends (a bounded
+				// queue with back-pressure): the end of the connection has to reach the handler while its loop is in here
+				select {
+				case <-h.Context().Done():
+				case <-time.After(3 * time.Second):
+				}
 			}
 			return true
 		}
@@ -404,6 +418,13 @@ func RunLifecycle(t *testing.T, sc *LScenario, emit func(*LifeObs)) {
 				h.Stop()
 			}
 		}
+		if sc.BlockCb { // the cause fires while the handler loop IS inside the callback
+			select {
+			case <-entered:
+			case <-time.After(time.Second):
+			}
+			time.Sleep(2 * time.Millisecond)
+		}
 		if sc.Cause2 != "" {
 			defer func() {}()
 			go func() {
@@ -447,6 +468,12 @@ func RunLifecycle(t *testing.T, sc *LScenario, emit func(*LifeObs)) {
 		} else {
 			time.Sleep(450 * time.Millisecond)
 		}
+		// the socket and the notification are looked at BEFORE the later send call is made: a connection that is only wound down
+		// because somebody tries to send afterwards has not ended by itself
+		sockClosedBefore := conn.IsClosed()
+		mu.Lock()
+		notifiedBefore := notified
+		mu.Unlock()
 		sendersDone := make(chan struct{})
 		go func() { sendersWg.Wait(); close(sendersDone) }()
 		postSend := make(chan struct{})
@@ -465,7 +492,7 @@ func RunLifecycle(t *testing.T, sc *LScenario, emit func(*LifeObs)) {
 			o.SendersDone = true
 		case <-time.After(400 * time.Millisecond):
 		}
-		o.SockClosed = conn.IsClosed()
+		o.SockClosed = sockClosedBefore
 		if sc.Role == "initiator" {
 			select {
 			case <-serveDone:
@@ -475,9 +502,7 @@ func RunLifecycle(t *testing.T, sc *LScenario, emit func(*LifeObs)) {
 		} else {
 			o.ServeReturned = true // per-connection serve is observed through the goroutine profile
 		}
-		mu.Lock()
-		o.Notified = notified
-		mu.Unlock()
+		o.Notified = notifiedBefore
 		o.Leaked = libraryGoroutines(sc.Role == "acceptor" && sc.Cause != "local_close", baseGid)
 		if o.Leaked == nil {
 			o.Leaked = []string{}
